@@ -228,8 +228,15 @@ def check_completeness(case, ctx):
     ins = inputs_of(spec)
     maxn = ctx.budget.get("max_inputs", 14)
     if len(ins) > maxn:
-        start = case["pick"] % len(ins)
-        ins = (ins + ins)[start:start + maxn]
+        # inputs whose current value is 0 first (they switch a dependent between 'no value' and a value, where
+        # dependencies recorded through empty operands matter), then a drawn window of the others
+        def is_zero(i):
+            e = spec["objs"][i[1]]
+            return i[0] == "q" and (e.get(i[2]) or S.default_quantity(e["cls"], i[2]))[0] == 0
+        zeros = [i for i in ins if is_zero(i)]
+        rest = [i for i in ins if not is_zero(i)]
+        start = case["pick"] % max(len(rest), 1)
+        ins = (zeros + (rest + rest)[start:start + maxn])[:maxn]
     pairs = far = 0
     labels = ["mode=completeness"]
     for inp in ins:
